@@ -99,6 +99,24 @@ inline void Sweep::unified_neighbours()
          }
       }
    }
+   // declarations entered under ONE name with types that differ in one place only (exception specification, transfer,
+   // qualifiers, one parameter): each declaration reports exactly the type it was declared with
+   {
+      auto ts = P.distinct(plain, 2); auto xs = P.distinct(P.exprs, 1);
+      impl::Warehouse<Type> w1, w2; w1.push_back(*ts[0]); w2.push_back(*ts[0]); w2.push_back(*ts[1]);
+      auto& p1 = lex.get_product(w1); auto& p2 = lex.get_product(w2);
+      auto& xc = lex.get_transfer(lex.get_linkage(u8"C"), lex.get_calling_convention(u8""));
+      const Function* fts[] = { &lex.get_function(p1, *ts[1]), &lex.get_function(p1, *ts[1], L.true_value()), &lex.get_function(p1, *ts[1], *xs[0]), &lex.get_function(p1, *ts[1], xc),
+                                &lex.get_function(p2, *ts[1]), &lex.get_function(p1, *ts[0]), &lex.get_function(p1, *ts[1]) };
+      auto* holder = lex.make_namespace(*unit.global_region());
+      auto& fname = lex.get_identifier(u8"overloaded_f");
+      int k = 0;
+      for (auto ft : fts) { auto* d = holder->body.scope.make_fundecl(fname, *ft); add_node("Scope::make_fundecl(burst " + std::to_string(k++) + ")", d, Category_code::Fundecl, [d, ft, np = &fname](Ck& c) { c.same("name", &d->name(), static_cast<const Name*>(np)); c.type_is(*d, *ft, "given"); }); }
+      auto& vname = lex.get_identifier(u8"overloaded_v");
+      const Type* vts[] = { ts[0], &lex.get_qualified(Qualifiers(1), *ts[0]), &lex.get_qualified(Qualifiers(3), *ts[0]), &lex.get_pointer(*ts[0]), &lex.get_reference(*ts[0]), ts[0] };
+      k = 0;
+      for (auto vt : vts) { auto* d = holder->body.scope.make_var(vname, *vt); add_node("Scope::make_var(burst " + std::to_string(k++) + ")", d, Category_code::Var, [d, vt, np = &vname](Ck& c) { c.same("name", &d->name(), static_cast<const Name*>(np)); c.type_is(*d, *vt, "given"); }); }
+   }
    // spellings that are prefixes of one another, through every spelling-keyed constructor
    {
       const char* sp[] = { "ab", "abc", "a", "ab", "abd", "", "abc" };
